@@ -6,7 +6,7 @@ from harness import graphs as G
 from harness import strategies as S
 from harness.core import Acc, HarnessError, Violation, lib, must, must_raise
 from harness.hyp import job_seed, run_property, scaled
-from props.gcommon import DTYPE_NAMES, compare_sets, pdag_codes, result_set, signed_copy, spoil, to_np
+from props.gcommon import DTYPE_NAMES, compare_sets, lib_debug, pdag_codes, result_set, signed_copy, spoil, to_np
 
 PROP = "C10"
 RULE = ("imec(A, I) (shortcut and general path) and dag_to_icpdag(A, I) for every (DAG, I subset of nodes) pair on p<=4 nodes "
@@ -112,6 +112,13 @@ def check(case):
         if ic.shape != (p, p) or G.rows_from_matrix(ic) != ug:
             raise Violation("icpdag_wrong", "dag_to_icpdag[%s](A=%s, I=%s) = %s, I-essential graph is %s"
                             % (var, case["A"], I, ic.astype(int).tolist(), G.lists_from_rows(ug)))
+        if (len(I) + p + int(A.sum() != 0)) % 3 == 0:     # same answer with the tracing flag
+            od = lib_debug(utils.dag_to_icpdag, A, set(Iset))
+            if od is not None:
+                icd = np.asarray(must(od, "dag_to_icpdag[%s](debug=True)" % var))
+                if icd.shape != (p, p) or G.rows_from_matrix(icd) != ug:
+                    raise Violation("icpdag_wrong", "dag_to_icpdag[%s](A=%s, I=%s, debug=True) = %s, I-essential graph is %s"
+                                    % (var, case["A"], I, icd.astype(int).tolist(), G.lists_from_rows(ug)))
         spoil(ic)
         if not (A == keep).all():
             raise Violation("input_modified", "imec / dag_to_icpdag modified the graph argument")
